@@ -16,7 +16,7 @@ use std::collections::{BTreeMap, BTreeSet};
 // ------------------------------------------------------------------------------------------
 
 pub fn map_code(check: &str, v: &Viol) -> Option<&'static str> {
-    let plain_ev = matches!(v.evk, None | Some(EvKind::Init) | Some(EvKind::Call));
+    let plain_ev = matches!(v.evk, None | Some(EvKind::Init) | Some(EvKind::Call) | Some(EvKind::Mk));
     let g = v.g;
     match check {
         "C01" => match g {
